@@ -27,6 +27,7 @@ import warnings
 sys.path.insert(0, os.path.dirname(os.path.abspath(__file__)))
 
 from core import common as C  # noqa: E402
+from core import linecov  # noqa: E402
 
 # the implementation under test is imported from ACN_REPO (default /repo): its working tree
 sys.path.insert(0, C.REPO)
@@ -305,6 +306,10 @@ def main() -> int:
 
     # ---------------------------------------------------------------- 4-5 correspondence + oracle
     rng = random.Random(seed * 1000003 + 17)
+    # which lines of the anchored implementation files do the streams of this run execute? (evidence only)
+    cov = linecov.LineCov(C.REPO)
+    if os.environ.get("VERIF_LINECOV", "1") != "0":
+        cov.start()
     cases = load_corpus(P)
     n_corpus = len(cases)
     cases.extend(P.generate(rng, budget(P, tier), tier))
@@ -348,6 +353,11 @@ def main() -> int:
         except Exception:
             traceback.print_exc()
         disagreements = _live_diffs(records)
+
+    cov.stop()
+    if os.environ.get("VERIF_LINECOV_DUMP") and cov.hits:  # maintainer analysis: union over properties
+        os.makedirs(os.environ["VERIF_LINECOV_DUMP"], exist_ok=True)
+        json.dump(sorted(cov.hits), open(os.path.join(os.environ["VERIF_LINECOV_DUMP"], f"{pid}.json"), "w"))
 
     # classify failures
     violations = []  # (record, failure)
@@ -464,6 +474,7 @@ def main() -> int:
             "notes": notes,
             "proof_broken": proof_broken,
             "code_tie_lost": tie_lost,
+            "impl_line_coverage": cov.report(linecov.anchors_of(C.VERIF, pid)) if cov.hits else None,
             "exhaustive": False,
         },
         "assumptions": list(getattr(P, "ASSUMPTIONS", [])),
